@@ -670,7 +670,15 @@ def run_property_kani(prop, tier, harnesses, seed, on_result=None):
     # keep the logs of the latest two runs of this property/tier only
     old = sorted(x for x in os.listdir(logroot) if x.startswith("%s-%s." % (prop, tier)))
     for x in old[:-1]:
-        shutil.rmtree(os.path.join(logroot, x), ignore_errors=True)
+        # never prune the log directory of a run that may still be going on (concurrent evaluation of the
+        # same property against another checkout): only directories untouched for an hour
+        dx = os.path.join(logroot, x)
+        try:
+            newest = max([os.path.getmtime(dx)] + [os.path.getmtime(os.path.join(dx, f)) for f in os.listdir(dx)])
+        except OSError:
+            continue
+        if time.time() - newest > 3600:
+            shutil.rmtree(dx, ignore_errors=True)
     logdir = os.path.join(logroot, "%s-%s.%d.%d" % (prop, tier, int(time.time()), os.getpid()))
     os.makedirs(logdir, exist_ok=True)
     meta = {"scratch": d, "cache_build_s": cache_s, "logdir": logdir,
